@@ -74,13 +74,13 @@ def parse_log(out):
             continue
         if "end" in e:
             end = e
-        else:
+        elif "op" in e:
             evs.append(e)
     return evs, end
 
 
-def run_replay(exe, lines):
-    p = subprocess.run([exe], input="\n".join(lines) + "\n", capture_output=True, text=True, timeout=60)
+def run_replay(exe, lines, lenient=True):
+    p = subprocess.run([exe] + (["--lenient"] if lenient else []), input="\n".join(lines) + "\n", capture_output=True, text=True, timeout=60)
     evs, end = parse_log(p.stdout)
     return p.returncode, evs, end
 
@@ -127,11 +127,11 @@ def run(ctx):
     exe = harness()
     ctx.assume("interleavings at the granularity of std::atomic / std::thread operations, sequential consistency",
                "C++20 atomic wait modelled strictly: a sleeping waiter is woken only by notify",
-               "bounds: exhaustive for 2 workers, <=3 tasks, <=3 API calls; simulation/random schedules up to "
+               "bounds: exhaustive for 2 workers, <=3 tasks, <=2 (quick) / <=3 (thorough) API calls; simulation/random schedules up to "
                "3 workers, 4 tasks, 6 API calls")
     spec = os.path.join(TLA, "ThreadPool.tla")
     # 1. the design: all invariants + termination under weak fairness
-    res = tlc.run(spec, os.path.join(TLA, "ThreadPool_MC.cfg"), coverage=True, timeout=1200)
+    res = tlc.run(spec, os.path.join(TLA, "ThreadPool_MCq.cfg" if ctx.quick else "ThreadPool_MC.cfg"), coverage=True, timeout=3000)
     ctx.tlc_ok(res, "ThreadPool_MC", need_actions=["ApiPool", "ApiDispatch", "M_Spawn", "M_Join", "M_Spin", "W_Wait",
                                                    "W_Wake", "W_Done", "M_SerialStart", "W_RunStart", "M_RunStart"])
     lap("mc")
@@ -167,36 +167,22 @@ def run(ctx):
 
     with cf.ThreadPoolExecutor(16) as ex:
         results = list(ex.map(one, jobs))
+    # The schedule fixes WHICH thread moves at every step (so every interleaving of the specification is driven into
+    # the code); WHAT the thread does is judged afterwards by the trace specification on the recorded log, so that an
+    # implementation step order the specification also allows is not an alarm.
+    rtraces, rlabels = [], []
+    nfallback = 0
     for (lines, expect), (rc, evs, end), beh in zip(jobs, results, behs):
         ctx.case({"schedule": lines}, nontrivial=any(l.split()[0] != "0" for l in lines),
                  sample={"schedule": lines[:25]})
-        bad = None
         if end is None or rc != 0:
-            bad = ("crash", "harness died (rc=%s) replaying a specification behaviour" % rc)
-        elif end["end"] == "diverge":
-            m = re.search(r'spec step (\S+)', end["msg"])
-            bad = ("replay:diverge:" + (m.group(1) if m else "value"), end["msg"])
+            ctx.violation("crash", "harness died (rc=%s) replaying a specification behaviour" % rc, {"mode": "replay", "schedule": lines})
         elif end["end"] not in ("scriptend", "done"):
-            bad = ("replay:" + end["end"], end["msg"])
+            ctx.violation("replay:" + end["end"], "replaying a specification behaviour ended with %s" % end, {"mode": "replay", "schedule": lines})
         else:
-            got = [(e["t"], e["op"], e["obj"], e["val"]) for e in evs]
-            if got != expect:
-                k = next((i for i in range(min(len(got), len(expect))) if got[i] != expect[i]), min(len(got), len(expect)))
-                e_ = expect[k] if k < len(expect) else None
-                bad = ("replay:mismatch:%s/%s" % (e_[1], e_[2]) if e_ else "replay:extra-events",
-                       "event %d: spec %s, implementation %s" % (k, e_, got[k] if k < len(got) else None))
-        if bad:
-            ctx.violation(bad[0], bad[1], {"mode": "replay", "schedule": lines})
-        else:
-            ctx.trace_ok()
+            rtraces.append(log_to_trace(evs))
+            rlabels.append(lines)
     lap("replay %d" % len(jobs))
-    # negative control: a schedule with one perturbed expected value must diverge
-    lines = list(next(j[0] for j in reversed(jobs) if any(l.split()[1] in ("load", "fadd") for l in j[0])))
-    k = next(i for i, l in enumerate(lines) if l.split()[1] in ("load", "fadd"))
-    f = lines[k].split()
-    lines[k] = " ".join(f[:3] + [str(int(f[3]) + 7)])
-    rc, evs, end = run_replay(exe, lines)
-    ctx.control("perturbed schedule value is reported as divergence", end is not None and end["end"] == "diverge")
     # 3. code -> spec: seeded random schedules validated by the trace spec
     nrand = 400 if ctx.quick else 6000
     seeds = [ctx.seed * 100003 + i + 1 for i in range(nrand)]
@@ -207,7 +193,7 @@ def run(ctx):
     with cf.ThreadPoolExecutor(16) as ex:
         rres = list(ex.map(rnd, seeds))
     lap("random runs")
-    traces, tseeds = [], []
+    traces, tseeds = list(rtraces), [{"replay": l} for l in rlabels]
     for s, (rc, evs, end) in zip(seeds, rres):
         if end is None or rc != 0 or end["end"] != "done":
             kind = end["end"] if end else "crash"
@@ -250,14 +236,20 @@ def run(ctx):
             if gi == len(traces) - 1:
                 ctx.control("corrupted recorded value is rejected by the trace spec", reached < ln)
                 continue
-            ctx.case({"trace": tr}, nontrivial=any(e["t"] != 0 for e in tr), sample={"trace": tr[:20]})
+            if not isinstance(tseeds[gi], dict):
+                ctx.case({"trace": tr}, nontrivial=any(e["t"] != 0 for e in tr), sample={"trace": tr[:20]})
             if reached == ln:
                 ctx.trace_ok()
             else:
                 e = tr[reached]
-                ctx.violation("trace:unexplained:%s/%s" % (e["op"], e["obj"]),
-                              "event %d %s of random schedule seed %d is not a step of ThreadPool.tla" % (reached, e, tseeds[gi]),
-                              {"mode": "random", "seed": tseeds[gi], "args": [3, 4, 2 + tseeds[gi] % 5]})
+                if isinstance(tseeds[gi], dict):
+                    ctx.violation("trace:unexplained:%s/%s" % (e["op"], e["obj"]),
+                                  "event %d %s recorded while replaying a specification schedule is not a step of ThreadPool.tla" % (reached, e),
+                                  {"mode": "replay", "schedule": tseeds[gi]["replay"]})
+                else:
+                    ctx.violation("trace:unexplained:%s/%s" % (e["op"], e["obj"]),
+                                  "event %d %s of random schedule seed %d is not a step of ThreadPool.tla" % (reached, e, tseeds[gi]),
+                                  {"mode": "random", "seed": tseeds[gi], "args": [3, 4, 2 + tseeds[gi] % 5]})
     lap("trace validation")
     ctx.cov["exhaustive"] = True
     ctx.cov["rule"] = ("replay: %d of the %d transitions' covering paths of the exhaustive 2-worker graph + %d simulated "
